@@ -190,6 +190,21 @@ fn attribute(d: &Design, stim: &Stimulus, cfg: &str, codes: &[String]) -> Vec<St
             return vec![k.name.to_string()];
         }
     }
+    // defect emulation inside svref (the design text is unchanged)
+    for (name, flags) in crate::triage::emulations() {
+        let d2 = d.clone();
+        let (s2, c2, r2) = (stim.clone(), c.to_string(), r.to_string());
+        let ok = match fresh_thread(STACK_64M, move || {
+            svref::sim::set_emulation(flags);
+            run_config(&d2, &s2, &c2, &r2, false, None)
+        }) {
+            Ok(o) => o.status == "ok" && o.cmp.mismatch.is_none() && o.cmp.compared > 0,
+            Err(_) => false,
+        };
+        if ok {
+            return vec![name.to_string()];
+        }
+    }
     // several independent defects in one design: apply the rewrites cumulatively
     let mut text = d.text.clone();
     let mut used = vec![];
